@@ -198,15 +198,14 @@ Definition call_expr (goal : term) (extra : list term) : nat -> fr -> heap -> mi
     | _ => ELeaf XRaise
     end.
 
-(* findall: results = makelist([get_value(template) for r in q]).  The variables created while an
-   answer was computed are different objects for different answers, although the machine (like
-   Sem/Machine.v) reuses cell numbers in different branches of the search: the collected instance of
-   answer j gets its cells >= lo (the counter at the call) moved up by off_j, off_1 = 0,
-   off_(j+1) = off_j + (counter at answer j - lo)   [Sem/Machine.collect];  f_aux holds off_j *)
+(* findall: results = makelist([copy_term(template, {}) for r in q])  (engine.py since D27).  Each collected
+   instance is a copy with new variables: the instance of answer j gets every cell moved up by
+   f_nxt + off_j (f_nxt = the counter at the call), off_1 = 0, off_(j+1) = off_j + counter at answer j
+   [Sem/Machine.collect with lo = 0];  f_aux holds off_j *)
 Definition fcollect (template : term) : nat -> fr -> heap -> fr :=
   fun g e h => {| f_env := f_env e; f_nxt := f_nxt e; f_fl := f_fl e;
-                  f_acc := f_acc e ++ [Machine.shift_term (f_nxt e) (f_aux e) (dfast h template)];
-                  f_aux := f_aux e + (g - f_nxt e) |}.
+                  f_acc := f_acc e ++ [Machine.shift_term 0 (f_nxt e + f_aux e) (dfast h template)];
+                  f_aux := f_aux e + g |}.
 (* the result list may contain those cells: the counter moves past them *)
 Definition fcollected : nat -> fr -> heap -> fr :=
   fun _ e _ => {| f_env := f_env e; f_nxt := f_nxt e + f_aux e; f_fl := f_fl e;
